@@ -32,6 +32,28 @@ fn raw_key() {}
 #[ignore]
 fn ignored_by_attr() {}
 
+#[divan::bench]
+#[ignore = "with a reason (name-value form of the built-in attribute)"]
+fn ignored_by_attr_with_reason() {}
+
+#[ignore = "attribute written before the bench attribute"]
+#[divan::bench(sample_size = 2)]
+fn ignored_by_leading_attr_with_reason() {}
+
+#[divan::bench_group]
+#[ignore = "group ignored with a reason"]
+mod ignored_group_with_reason {
+    #[divan::bench]
+    fn inner() {}
+}
+
+#[divan::bench_group(sample_count = 3)]
+#[ignore]
+mod ignored_group_by_attr {
+    #[divan::bench]
+    fn inner() {}
+}
+
 #[divan::bench(ignore)]
 fn ignored_by_flag() {}
 
